@@ -37,12 +37,14 @@ type clInput struct {
 
 var clT0 = time.Date(2024, 1, 1, 0, 0, 0, 0, time.UTC)
 
-const clUnit = time.Minute
+// the abstract time unit is concretised as one minute or as 100 ms (several snapshots within one second)
+var clUnits = []time.Duration{time.Minute, 100 * time.Millisecond}
 
-func clTime(t int) time.Time { return clT0.Add(time.Duration(t) * clUnit) }
-func clName(db string, inst, ts int) string {
+func clTimeU(t int, u time.Duration) time.Time { return clT0.Add(time.Duration(t) * u) }
+func clName(db string, inst, ts int) string { return clNameU(db, inst, ts, time.Minute) }
+func clNameU(db string, inst, ts int, u time.Duration) string {
 	ni := snapshot.NameInfo{Kind: snapshot.KindSnapshot, Extension: snapshot.DefaultExtension, SyncerName: db,
-		InstanceID: fmt.Sprintf("i%d", inst), GenerationID: "GX", Timestamp: clTime(ts)}
+		InstanceID: fmt.Sprintf("i%d", inst), GenerationID: "GX", Timestamp: clTimeU(ts, u)}
 	return ni.BuildName()
 }
 
@@ -61,6 +63,9 @@ func cmdCleaner(args []string) error {
 
 func replayCleaner(R *Result, in clInput, beh []clStep, bi int) {
 	ctx := context.Background()
+	clUnit := clUnits[bi%len(clUnits)]
+	clTime := func(t int) time.Time { return clTimeU(t, clUnit) }
+	clName := func(db string, inst, ts int) string { return clNameU(db, inst, ts, clUnit) }
 	fb := &faultBucket{Interface: memory.New(), loadGate: map[string]chan struct{}{}, failDelete: map[string]bool{}}
 	conf := config.Cleanup{Enabled: true, Interval: time.Hour, MustKeepInterval: time.Duration(in.MustKeep) * clUnit,
 		RemoveOldInstancesInterval: time.Duration(in.RemoveOld) * clUnit}
